@@ -110,6 +110,13 @@ func c07(r *ev.Run) {
 		}
 		return got, ""
 	})
+	{
+		var cs []c07Case
+		for _, t := range []string{"MZXW6YTB", "mzxw6ytb", " MZXW6YTBOI====== ", "MZXW6", "GEZDGNBVGY3TQOJQGEZDGNBVGY3TQOJQ", "", "MZXW6YTB0", "A", "MZ=W6YTB", "ıııııııı", strings.Repeat("MZXW6YTB", 40), strings.Repeat("a", 410)} {
+			cs = append(cs, c07Case{t})
+		}
+		afterWarmups(r, "decode-after-other-operations", cs, decodeCase)
+	}
 	if ReplayOnly {
 		return
 	}
